@@ -23,6 +23,27 @@ from . import C04
 NS = "nitro::lang::"
 
 
+def _piece_text(call, hay):
+    """canonical text of what a push_back / emplace_back adds: `hay.substr(pos, len)` for the substring forms (substr call, the
+    (string, pos[, len]) constructor arguments handed to emplace_back, an explicit std::string(hay, pos, len)), `basic_string{}` for empty"""
+    args = [a for a in call.get("args", []) if not (isinstance(a, dict) and a.get("k") == "defarg")]
+    if not args:
+        return "basic_string{}"
+    a0 = ir.unwrap(args[0])
+    if len(args) == 1 and isinstance(a0, dict) and a0.get("k") == "construct" and "basic_string" in (a0.get("name") or a0.get("type") or ""):
+        inner = [x for x in a0.get("args", []) if not (isinstance(x, dict) and x.get("k") == "defarg")]
+        if not inner:
+            return "basic_string{}"
+        if len(inner) in (2, 3) and fmt(ir.unwrap(inner[0])) == hay:
+            args = inner
+            a0 = ir.unwrap(args[0])
+    if len(args) in (2, 3) and fmt(a0) == hay:
+        if len(args) == 2:
+            return "%s.substr(%s)" % (hay, fmt(ir.unwrap(args[1])))
+        return "%s.substr(%s, %s)" % (hay, fmt(ir.unwrap(args[1])), fmt(ir.unwrap(args[2])))
+    return fmt(a0)
+
+
 def find_sites(f):
     """[(bid, idx, elem, node, needle, pos)] calls X.find(needle, pos) inside loops"""
     out = []
@@ -138,7 +159,7 @@ def run(ctx):
         for b2, i2, e2 in f.roots():
             for y in walk(e2["expr"], into_sc=False):
                 if y.get("k") == "call" and short(y.get("name") or "") in ("emplace_back", "push_back") and fmt(y.get("this")) == "result":
-                    pieces.append((b2, i2, e2, fmt(ir.unwrap(y["args"][0])) if y.get("args") else ""))
+                    pieces.append((b2, i2, e2, _piece_text(y, hay)))
         IN, before = fe.analyse(f)
         found = ("a", "(%s == std::basic_string<char>::npos)" % hit)
         nmid = nlast = 0
